@@ -6,7 +6,7 @@ from props.C02 import Tracker
 ID = "C04"
 COQ_TARGETS = ["Run/Run_Syncer.vo"]
 META = {
-    "text": "Theorems (Properties/C04.v) over the Gallina model of server/gossip/syncer.go + server/cluster/state.go fed by the watcher events of the gossip model: LookupEndpoint only ever returns a remote node that is active and advertises a positive count; the syncer's fold of events keeps, for every promoted node, endpoints = the visible endpoint: entries and status = the membership flags; combined with C02_caught_up_exact and C14 this gives 'caught up => routing entry = advertised state'. The full caught-up statement over world histories is checked on every step of generated histories by an independent monitor against the REAL syncer + cluster.State stacked on the REAL gossip state, and model and implementation are compared field by field (routing table, pending nodes, lookup results) after every op.",
+    "text": "Theorems (Properties/C04.v) over the Gallina model of server/gossip/syncer.go + server/cluster/state.go: C04_fold - for every well-formed sequence of watcher events the routing state stays in relation with the watcher's own fold (every known node is promoted with the announced addresses, status = flags, endpoints = parsed visible endpoint: entries, or pending, or dropped-after-leave); C04_caught_up - composing this with C14 (fold = visible gossip state) and C02_world_caught_up (caught up => the owner's exact entries), a caught-up observer's routing entry has the owner's addresses and exactly the owner's current live endpoint counts, withdrawn endpoints gone; C04_lookup_sound/complete - LookupEndpoint returns exactly the active remote nodes advertising a positive count. The same statements are checked on every step of generated histories by an independent monitor against the REAL syncer + cluster.State stacked on the REAL gossip state, and model and implementation are compared field by field (routing table, pending nodes, lookup results) after every op.",
     "note": "With expiry of a remote node in the history the caught-up statement can fail on the real code (finding F3, KNOWN_FINDINGS.txt). Trusted: as C02.",
     "technique": "Coq proof over the syncer/routing-table model + per-step monitor and model/implementation correspondence on the real syncer stacked on the real gossip state",
 }
